@@ -5,6 +5,8 @@ import (
 	"context"
 	"crypto/rand"
 	"fmt"
+	"math"
+	"sort"
 	"strings"
 	"sync"
 	"time"
@@ -36,7 +38,7 @@ type hsPair struct {
 // The server side uses the process-global session cache (as storeSession does).
 func realPair(clientConf, serverConf *security.SecurityConfig, clientAddr string) *hsPair {
 	ca, cb := bufpipe.Pair(clientAddr, "10.0.0.2:9618")
-	ctx, cancel := context.WithTimeout(context.Background(), 800*time.Millisecond)
+	ctx, cancel := context.WithTimeout(context.Background(), 20*time.Second)
 	defer cancel()
 	p := &hsPair{ca: ca, cb: cb}
 	p.cst, p.sst = stream.NewStream(ca), stream.NewStream(cb)
@@ -65,7 +67,7 @@ func realPair(clientConf, serverConf *security.SecurityConfig, clientAddr string
 
 // exchange sends one message each way; returns whether both arrived intact.
 func (p *hsPair) exchange() bool {
-	ctx, cancel := context.WithTimeout(context.Background(), 300*time.Millisecond)
+	ctx, cancel := context.WithTimeout(context.Background(), 20*time.Second)
 	defer cancel()
 	if p.cst.SendMessage(ctx, []byte("c2s-payload")) != nil {
 		return false
@@ -114,6 +116,9 @@ type resumeObs struct {
 	auth, enc   bool
 	appAccepted bool
 	leak        bool // the server's answer to the requester appeared in clear on the wire
+	negEnc      bool     // the Encryption flag the server's handshake reported
+	replyAttrs  []string // attribute names of the cleartext reply ad (sorted)
+	c2s         []byte   // everything the requester wrote on this connection (request + protected application message)
 }
 
 // scriptedResume sends a hand-built resumption request, optionally keys its stream, sends one
@@ -121,7 +126,7 @@ type resumeObs struct {
 func scriptedResume(own *security.SessionCache, sid string, want bool, keyMode string, key []byte, fromAddr string, requireAuth bool) resumeObs {
 	var ob resumeObs
 	ca, cb := bufpipe.Pair(fromAddr, "10.0.0.2:9618")
-	ctx, cancel := context.WithTimeout(context.Background(), 600*time.Millisecond)
+	ctx, cancel := context.WithTimeout(context.Background(), 20*time.Second)
 	defer cancel()
 	sst := stream.NewStream(cb)
 	sst.SetPeerAddr(fromAddr)
@@ -166,6 +171,8 @@ func scriptedResume(own *security.SessionCache, sid string, want bool, keyMode s
 	if want {
 		in := message.NewMessageFromStream(cst)
 		if rad, err := in.GetClassAd(ctx); err == nil {
+			ob.replyAttrs = append([]string{}, rad.GetAttributes()...)
+			sort.Strings(ob.replyAttrs)
 			rc, _ := rad.EvaluateAttrString("ReturnCode")
 			switch rc {
 			case "AUTHORIZED":
@@ -198,13 +205,17 @@ func scriptedResume(own *security.SessionCache, sid string, want bool, keyMode s
 	ob.ok = serr == nil
 	if sneg != nil && serr == nil {
 		ob.user, ob.auth, ob.enc = sneg.User, sneg.Authentication, sst.IsEncrypted()
+		ob.negEnc = sneg.Encryption
 		ob.appAccepted = appErr == nil && gotApp != nil
 	}
 	ob.leak = bytes.Contains(cb.Written(), []byte("TOP-SECRET-ANSWER"))
+	ob.c2s = append([]byte{}, ca.Written()...)
 	return ob
 }
 
-// remainClass: how long the server-side entry (own cache first, then the global one) has left.
+// remainClass: how long the server-side entry (own cache first, then the global one) has left,
+// classified against the entry's OWN lease (whatever the library's default lease is): "lease" =
+// it expires one lease from now.
 func remainClass(own *security.SessionCache, sid string) string {
 	var e *security.SessionEntry
 	if own != nil {
@@ -220,15 +231,29 @@ func remainClass(own *security.SessionCache, sid string) string {
 		return "never"
 	}
 	rem := time.Until(e.Expiration()).Seconds()
+	lease := e.Lease().Seconds()
 	switch {
-	case rem > 1770 && rem < 1830:
-		return "lease"
-	case rem > 3570 && rem < 3630:
-		return "duration"
 	case rem <= 0:
 		return "past"
+	case lease > 0 && math.Abs(rem-lease) < 30:
+		return "lease"
 	}
 	return fmt.Sprintf("other:%d", int(rem))
+}
+
+// entryTimes renders an entry's expiry and lease for the model's virtual clock (now = 1000): what is
+// left of the entry's life, to the nearest second, and its lease in seconds — read from the entry
+// the library created, not assumed.
+func entryTimes(e *security.SessionEntry) (exp string, lease int) {
+	lease = int(math.Round(e.Lease().Seconds()))
+	if e.Expiration().IsZero() {
+		return "never", lease
+	}
+	rem := int(math.Round(time.Until(e.Expiration()).Seconds()))
+	if rem <= 0 {
+		return "0", lease
+	}
+	return fmt.Sprint(1000 + rem), lease
 }
 
 func mutateSid(sid string, how string) string {
@@ -301,7 +326,14 @@ func runResume(c *Ctx) error {
 		if keyed {
 			ks, cr = "1", "AES"
 		}
-		log(fmt.Sprintf("sstore %s key=%s crypto=%s user=%s auth=%s exp=4600 lease=1800", sid, ks, cr, strOrTilde(user), b01(authed)), "ok")
+		se0, found0 := security.GetSessionCache().Lookup(sid)
+		if !found0 {
+			c.Res.Notes = append(c.Res.Notes, "resume: the establishing handshake left no server-side session")
+			continue
+		}
+		exp0, lease0 := entryTimes(se0)
+		log(fmt.Sprintf("sstore %s key=%s crypto=%s user=%s auth=%s exp=%s lease=%d", tokEsc(sid), ks, cr, tokEsc(user), b01(authed), exp0, lease0), "ok")
+		cuser0, cauth0 := p.cneg.User, p.cneg.Authentication // the CLIENT's view the original handshake established
 		if keyed != p.cst.IsEncrypted() {
 			c.Res.Notes = append(c.Res.Notes, "resume: keyed expectation not met")
 		}
@@ -311,6 +343,7 @@ func runResume(c *Ctx) error {
 		// reached through the fallback; `ostore` registers the session in the own cache as well.
 		var own *security.SessionCache
 		aliveOwn := false
+		keyedOwn := false // is the copy in the own cache (taken at ostore time) one that carries a usable key
 		if c.Rng.Intn(3) == 0 {
 			own = security.NewSessionCache()
 			c.Count("server:isolated-cache")
@@ -325,18 +358,60 @@ func runResume(c *Ctx) error {
 			if own != nil && c.Rng.Intn(4) == 0 {
 				sel = 9 + c.Rng.Intn(2)
 			}
+			if c.Rng.Intn(7) == 0 {
+				sel = 11
+			}
 			switch sel {
+			case 11:
+				// the stored session's key material is replaced by a variant (as an import or a store by
+				// the application could leave it): only an entry with a non-empty key under an
+				// AES-GCM protocol name may ever be resumed
+				e, found := security.GetSessionCache().Lookup(sid)
+				if !found {
+					break
+				}
+				type kv struct {
+					name   string
+					ki     *security.KeyInfo
+					ks, cr string
+					usable bool
+				}
+				vs := []kv{
+					{"nil", nil, "none", "~", false},
+					{"data-nil/AES", &security.KeyInfo{Data: nil, Protocol: "AES"}, "none", "AES", false},
+					{"data-empty/AES", &security.KeyInfo{Data: []byte{}, Protocol: "AES"}, "none", "AES", false},
+					{"data/3DES", &security.KeyInfo{Data: append([]byte{}, key...), Protocol: "3DES"}, "1", "3DES", false},
+					{"data/BLOWFISH", &security.KeyInfo{Data: append([]byte{}, key...), Protocol: "BLOWFISH"}, "1", "BLOWFISH", false},
+					{"data/empty-protocol", &security.KeyInfo{Data: append([]byte{}, key...), Protocol: ""}, "1", "~", false},
+					{"data/AESGCM", &security.KeyInfo{Data: append([]byte{}, key...), Protocol: "AESGCM"}, "1", "AESGCM", true},
+					{"data/AES", &security.KeyInfo{Data: append([]byte{}, key...), Protocol: "AES"}, "1", "AES", true},
+				}
+				v := pick(c, vs)
+				if len(key) == 0 && v.ks == "1" {
+					break // the session never had key material to put back
+				}
+				ne := security.NewSessionEntry(e.ID(), e.Addr(), v.ki, e.Policy(), e.Expiration(), e.Lease(), e.Tag())
+				security.GetSessionCache().Store(ne)
+				vexp, vlease := entryTimes(ne)
+				ks, cr, keyed = v.ks, v.cr, v.usable
+				log(fmt.Sprintf("sstore %s key=%s crypto=%s user=%s auth=%s exp=%s lease=%d", tokEsc(sid), ks, cr, tokEsc(user), b01(authed), vexp, vlease), "ok")
+				c.Count("keyinfo:" + v.name)
+				nontrivial = true
 			case 9:
 				stored := false
+				oexp, olease := "", 0
 				for _, e := range security.GetSessionCache().Snapshot() {
 					if e.ID() == sid && !e.IsExpired() {
-						own.Store(security.NewSessionEntry(e.ID(), e.Addr(), e.KeyInfo(), e.Policy(), time.Now().Add(3600*time.Second), e.Lease(), e.Tag()))
+						ne := security.NewSessionEntry(e.ID(), e.Addr(), e.KeyInfo(), e.Policy(), time.Now().Add(3600*time.Second), e.Lease(), e.Tag())
+						own.Store(ne)
+						oexp, olease = entryTimes(ne)
 						stored = true
 					}
 				}
 				if stored {
-					log(fmt.Sprintf("ostore %s key=%s crypto=%s user=%s auth=%s exp=4600 lease=1800", sid, ks, cr, strOrTilde(user), b01(authed)), "ok")
+					log(fmt.Sprintf("ostore %s key=%s crypto=%s user=%s auth=%s exp=%s lease=%d", tokEsc(sid), ks, cr, tokEsc(user), b01(authed), oexp, olease), "ok")
 					aliveOwn = true
+					keyedOwn = keyed
 				}
 			case 10:
 				own.Invalidate(sid)
@@ -370,7 +445,7 @@ func runResume(c *Ctx) error {
 				ob := scriptedResume(own, rsid, want, keyMode, key, from, requireAuth)
 				var r string
 				if ob.ok {
-					r = fmt.Sprintf("ok reply=%s user=%s auth=%s enc=%s", ob.reply, strOrTilde(ob.user), b01(ob.auth), b01(ob.enc))
+					r = fmt.Sprintf("ok reply=%s user=%s auth=%s enc=%s", ob.reply, tokEsc(ob.user), b01(ob.auth), b01(ob.enc))
 				} else {
 					r = fmt.Sprintf("ok reply=%s refused", ob.reply)
 				}
@@ -388,11 +463,35 @@ func runResume(c *Ctx) error {
 				viol := func(k, what, exp, obs string) {
 					c.Violate(Violation{Property: "C06", Key: "C06:" + k, What: what, Ops: append(append([]string{}, ops...), fmt.Sprintf("# request key-mode=%s from=%s", keyMode, from)), Expected: exp, Observed: obs})
 				}
-				if ob.ok && !keyed {
+				// the entry a request for the right id is answered from: the own cache's live copy when
+				// there is one (no fallback then), else the global entry
+				usableKey := keyed
+				if aliveOwn {
+					usableKey = keyedOwn
+				}
+				if ob.ok && !usableKey {
 					viol("keyless-resumed", "a session without a key was resumed", "refused", r)
 				}
 				if ob.ok && !ob.enc {
 					viol("resumed-plaintext", "a resumed connection is not protected by the session key", "stream keyed before any application byte", r)
+				}
+				if ob.ok && ob.negEnc != ob.enc {
+					viol("resumed-encryption-flag-wrong", "the Encryption flag the server's resumed handshake reports differs from the stream's real state", fmt.Sprintf("Encryption=%v", ob.enc), fmt.Sprintf("Encryption=%v", ob.negEnc))
+				}
+				if want && len(ob.replyAttrs) > 0 {
+					// the reply is read in clear by whoever sent the request (no key needed): beyond the
+					// verdict, the session id it named and the fresh value it must carry nothing
+					var extra []string
+					for _, a := range ob.replyAttrs {
+						switch strings.ToLower(a) {
+						case "returncode", "sid", "resumenonce", "mytype", "targettype":
+						default:
+							extra = append(extra, a)
+						}
+					}
+					if len(extra) > 0 {
+						viol("reply-carries-session-data", "the cleartext resumption reply, readable by a requester without the key, carries attributes beyond ReturnCode, Sid, ResumeNonce", "ReturnCode, Sid, ResumeNonce only", strings.Join(extra, ","))
+					}
 				}
 				if ob.ok && (how != "right" || !(alive || aliveOwn)) {
 					viol("dead-or-unknown-resumed", "an expired / invalidated / unknown session id was resumed", "refused", r)
@@ -409,19 +508,38 @@ func runResume(c *Ctx) error {
 				if ob.ok && how == "right" && (alive || aliveOwn) && (ob.user != user || ob.auth != authed) {
 					viol("identity-lost", "resumption did not restore the identity / authentication status of the original handshake", user+"/true", fmt.Sprintf("%s/%v", ob.user, ob.auth))
 				}
+				if ob.ok && keyMode == "right" && ob.appAccepted && len(ob.c2s) > 0 {
+					// ---- replay of a SCRIPTED (legacy-style) key-holding requester's byte stream ----
+					// The cedar client always asks for a reply; a legacy peer may not (ResumeResponse=false):
+					// then the server sends nothing before the protected traffic and contributes no fresh
+					// value to the connection. Replay what this legitimate requester wrote, byte for byte,
+					// into a fresh server connection while the session is still alive.
+					k := "replay-c2s"
+					if !want {
+						k = "replay-c2s-noreply"
+					}
+					c.Count("scripted-" + k)
+					for _, cut := range []int{len(ob.c2s), len(ob.c2s) - 1} {
+						if cut > 0 && replayToServerConf(own, requireAuth, ob.c2s[:cut]) {
+							viol(k, "a byte-for-byte replay of the client->server bytes of a recorded resumed connection (scripted requester holding the key, reply requested: "+b01(want)+") was accepted by a fresh server connection as application data",
+								"receive error on the fresh connection", fmt.Sprintf("application data delivered (bytes [0:%d] of %d replayed)", cut, len(ob.c2s)))
+							break
+						}
+					}
+				}
 				if ob.ok && how == "right" {
 					// a successful resumption puts the session on its lease: it now expires one lease
 					// from now (not later), however long the original duration was
 					cls := remainClass(own, sid)
 					log("sremain "+sid, "ok "+cls)
 					if cls != "lease" {
-						viol("lease-not-applied", "after a successful resumption the session does not expire one lease from now", "remaining lifetime = the lease (1800 s)", cls)
+						viol("lease-not-applied", "after a successful resumption the session does not expire one lease from now", "remaining lifetime = the entry's lease", cls)
 					}
 				}
 			}
 		}
 		// honest resumption through the real client, when the session should still be usable
-		if alive && keyed && authed && c.Rng.Intn(2) == 0 {
+		if authed && ((aliveOwn && keyedOwn) || (!aliveOwn && alive && keyed)) && c.Rng.Intn(2) == 0 {
 			sc2 := srvConf(true)
 			sc2.SessionCache = own
 			p2 := realPair(cliConf(ccache, ""), sc2, "10.0.0.1:1111")
@@ -433,10 +551,17 @@ func runResume(c *Ctx) error {
 				if p2.sneg.User != user || !p2.sneg.Authentication {
 					c.Violate(Violation{Property: "C06", Key: "C06:honest-resume-identity", What: "server lost identity/authentication on resumption", Ops: ops, Expected: user, Observed: p2.sneg.User})
 				}
-				if !p2.cneg.Authentication || p2.cneg.User == "" {
-					c.Violate(Violation{Property: "C06", Key: "C06:client-status-lost", What: "client side of a resumed session does not report the authentication status the original handshake established", Ops: ops, Expected: "Authentication=true", Observed: fmt.Sprintf("Authentication=%v user=%q", p2.cneg.Authentication, p2.cneg.User)})
+				if p2.cneg.Authentication != cauth0 || p2.cneg.User != cuser0 {
+					c.Violate(Violation{Property: "C06", Key: "C06:client-status-lost", What: "client side of a resumed session does not report the identity / authentication status the original handshake established", Ops: ops, Expected: fmt.Sprintf("Authentication=%v user=%q", cauth0, cuser0), Observed: fmt.Sprintf("Authentication=%v user=%q", p2.cneg.Authentication, p2.cneg.User)})
 				}
-				log(fmt.Sprintf("sresume %s want=1", sid), fmt.Sprintf("ok reply=authorized user=%s auth=%s enc=%s", strOrTilde(p2.sneg.User), b01(p2.sneg.Authentication), b01(p2.sst.IsEncrypted())))
+				if p2.cneg.Encryption != p2.cst.IsEncrypted() || p2.sneg.Encryption != p2.sst.IsEncrypted() {
+					c.Violate(Violation{Property: "C06", Key: "C06:resumed-encryption-flag-wrong", What: "after a resumption the Encryption flag a side reports differs from its stream's real state", Ops: ops,
+						Expected: fmt.Sprintf("client %v server %v", p2.cst.IsEncrypted(), p2.sst.IsEncrypted()), Observed: fmt.Sprintf("client %v server %v", p2.cneg.Encryption, p2.sneg.Encryption)})
+				}
+				if !p2.cst.IsEncrypted() || !p2.sst.IsEncrypted() {
+					c.Violate(Violation{Property: "C06", Key: "C06:resumed-plaintext", What: "after an honest resumption a side's stream is not protected by the session key", Ops: ops, Expected: "both streams keyed", Observed: fmt.Sprintf("client %v server %v", p2.cst.IsEncrypted(), p2.sst.IsEncrypted())})
+				}
+				log(fmt.Sprintf("sresume %s want=1", tokEsc(sid)), fmt.Sprintf("ok reply=authorized user=%s auth=%s enc=%s", tokEsc(p2.sneg.User), b01(p2.sneg.Authentication), b01(p2.sst.IsEncrypted())))
 				// ---- replay: record this connection's bytes and replay them into fresh connections ----
 				c2s := append([]byte{}, p2.ca.Written()...)
 				s2c := append([]byte{}, p2.cb.Written()...)
@@ -451,9 +576,15 @@ func runResume(c *Ctx) error {
 						break
 					}
 				}
-				if replayToClient(ccache, s2c) {
-					c.Violate(Violation{Property: "C06", Key: "C06:replay-s2c", What: "a byte-for-byte replay of a recorded server side of a resumed connection was accepted by a fresh client connection as application data",
-						Ops: append(append([]string{}, ops...), "# replay server->client bytes"), Expected: "receive error", Observed: "application data delivered"})
+				for _, cut := range []int{len(s2c), len(s2c) - 1, len(s2c) / 2} {
+					if cut <= 0 {
+						continue
+					}
+					if replayToClient(ccache, s2c[:cut]) {
+						c.Violate(Violation{Property: "C06", Key: "C06:replay-s2c", What: "a byte-for-byte replay of a recorded server side of a resumed connection was accepted by a fresh client connection as application data",
+							Ops: append(append([]string{}, ops...), fmt.Sprintf("# replay server->client bytes [0:%d] of %d", cut, len(s2c))), Expected: "receive error", Observed: "application data delivered"})
+						break
+					}
 				}
 				c.Count("replay")
 			} else {
@@ -473,7 +604,10 @@ func runResume(c *Ctx) error {
 }
 
 // replayToServer feeds recorded client bytes to a fresh server connection; true = app data delivered.
-func replayToServer(rec []byte) bool {
+func replayToServer(rec []byte) bool { return replayToServerConf(nil, true, rec) }
+
+// replayToServerConf: the same against a server with the given own cache and authentication requirement.
+func replayToServerConf(own *security.SessionCache, requireAuth bool, rec []byte) bool {
 	ca, cb := bufpipe.Pair("10.0.0.1:1111", "10.0.0.2:9618")
 	ctx, cancel := context.WithTimeout(context.Background(), 300*time.Millisecond)
 	defer cancel()
@@ -482,7 +616,12 @@ func replayToServer(rec []byte) bool {
 	sst := stream.NewStream(cb)
 	sst.SetPeerAddr("10.0.0.1:1111")
 	cb.Inject(rec)
+	ca.CloseWrite() // the recording is all there is: after it the server reads EOF (it can still write its reply)
 	sc := *srvConf(true)
+	if !requireAuth {
+		sc.Authentication = security.SecurityOptional
+	}
+	sc.SessionCache = own
 	a := security.NewAuthenticator(&sc, sst)
 	if _, err := a.ServerHandshake(ctx); err != nil {
 		return false
@@ -500,6 +639,7 @@ func replayToClient(ccache *security.SessionCache, rec []byte) bool {
 	defer cb.Close()
 	cst := stream.NewStream(ca)
 	ca.Inject(rec)
+	cb.CloseWrite() // the recording is all there is: after it the client reads EOF (it can still write)
 	cc := *cliConf(ccache, "")
 	a := security.NewAuthenticator(&cc, cst)
 	if _, err := a.ClientHandshake(ctx); err != nil {
